@@ -478,9 +478,16 @@ fn main() {
     }
     loop {
         slot(main_slot, SLOT_HEARTBEAT).fetch_add(1, Ordering::SeqCst);
-        std::thread::sleep(std::time::Duration::from_millis(20));
+        std::thread::sleep(std::time::Duration::from_millis(5));
         if ctl(CTL_QUIT).load(Ordering::SeqCst) != 0 || unsafe { libc::getppid() } != orig_ppid {
             std::process::exit(0);
+        }
+        if ctl(CTL_MAP_LATE).load(Ordering::SeqCst) != 0 && ctl(CTL_LATE_DONE).load(Ordering::SeqCst) == 0 {
+            let mut errors = Vec::new();
+            for r in &spec.late_regions {
+                map_region(r, &mut errors);
+            }
+            ctl(CTL_LATE_DONE).store(if errors.is_empty() { 1 } else { 2 }, Ordering::SeqCst);
         }
     }
 }
